@@ -101,28 +101,50 @@ var c19ErrTexts = []string{
 // callbackErr builds the error UpdateFn returns for the call (nil if none) and the status
 // message the plugin must be shown.
 func (c C19Call) callbackErr() (error, string) {
-	switch c.ErrForm {
+	if c.ErrForm == "" && c.Err == "" {
+		return nil, ""
+	}
+	return formErr(c.ErrForm, c.ErrCode, c.ErrSentinel, c.Err)
+}
+
+// formErr builds an error of the given form and the text its receiver must be shown:
+// status = status.Error(code, text); wrap = fmt.Errorf("<text>: %w", sentinel); bare = the
+// sentinel itself; anything else = errors.New(text).
+func formErr(form string, code int, sentinel, text string) (error, string) {
+	switch form {
 	case "status":
-		code := codes.Code(c.ErrCode)
-		if code == codes.OK || code > codes.Unauthenticated {
-			code = codes.Unknown
+		c := codes.Code(code)
+		if c == codes.OK || c > codes.Unauthenticated {
+			c = codes.Unknown
 		}
-		return status.Error(code, c.Err), c.Err
+		return status.Error(c, text), text
 	case "wrap":
-		if s, ok := c19Sentinels[c.ErrSentinel]; ok {
-			e := fmt.Errorf("%s: %w", c.Err, s)
+		if s, ok := c19Sentinels[sentinel]; ok {
+			e := fmt.Errorf("%s: %w", text, s)
 			return e, e.Error()
 		}
 	case "bare":
-		if s, ok := c19Sentinels[c.ErrSentinel]; ok {
+		if s, ok := c19Sentinels[sentinel]; ok {
 			return s, s.Error()
 		}
-	case "":
-		if c.Err == "" {
-			return nil, ""
+	}
+	return errors.New(text), text
+}
+
+func formClass(form string, code int, sentinel string) string {
+	switch form {
+	case "status":
+		c := codes.Code(code)
+		if c == codes.OK || c > codes.Unauthenticated {
+			c = codes.Unknown
+		}
+		return "status:" + c.String()
+	case "wrap", "bare":
+		if _, ok := c19Sentinels[sentinel]; ok {
+			return form + ":" + sentinel
 		}
 	}
-	return errors.New(c.Err), c.Err
+	return "plain"
 }
 
 func (c C19Call) errClass() string {
@@ -199,7 +221,18 @@ type C19Abandon struct {
 	Others        []C19Call `json:"others"`
 }
 
+// C19Launched is a pre-installed plugin: an executable <Idx>-lp<n> in the Adaptation's plugin
+// path, launched by Adaptation.Start() over a pre-connected socket pair. Once it is
+// configured it issues Calls from its main goroutine, DelaysMs[i] before call i.
+type C19Launched struct {
+	Idx      string    `json:"idx"`
+	Calls    []C19Call `json:"calls"`
+	DelaysMs []int     `json:"delays_ms,omitempty"`
+}
+
 type C19Case struct {
+	// pre-installed plugins (only in cases without restarts: a restart launches them anew)
+	Launched []C19Launched `json:"launched,omitempty"`
 	// the runtime's life cycle before the plan runs: Stop() before the first Start(), and
 	// Restarts stop/start cycles of the same Adaptation object, each preceded by a session of
 	// one plugin issuing SessionCall if RestartSessions is set
@@ -425,6 +458,17 @@ func genC19(t *rapid.T) C19Case {
 			c.SessionCall = genC19Call(false).Draw(t, "session_call")
 		}
 	}
+	if c.Restarts == 0 && rapid.IntRange(0, 9).Draw(t, "launched") < 2 {
+		nl := rapid.IntRange(1, 2).Draw(t, "launched_plugins")
+		for i := 0; i < nl; i++ {
+			l := C19Launched{Idx: fmt.Sprintf("%02d", rapid.IntRange(0, 99).Draw(t, "launched_idx")),
+				Calls: rapid.SliceOfN(genC19Call(false), 1, 3).Draw(t, "launched_calls")}
+			for range l.Calls {
+				l.DelaysMs = append(l.DelaysMs, rapid.SampledFrom([]int{0, 0, 5, 20, 50}).Draw(t, "launched_delay_ms"))
+			}
+			c.Launched = append(c.Launched, l)
+		}
+	}
 	nf := rapid.SampledFrom([]int{0, 0, 0, 1, 1, 2}).Draw(t, "failed_starts")
 	for i := 0; i < nf; i++ {
 		fs := C19FailedStart{Calls: rapid.SliceOfN(genC19Call(false), 1, 2).Draw(t, "failed_start_calls")}
@@ -536,14 +580,15 @@ type c19AbMarks struct {
 }
 
 type c19Hist struct {
-	Abandon      *c19AbMarks  `json:"abandon,omitempty"`
-	FailedStarts []c19FS      `json:"failed_starts,omitempty"`
-	Plugins      []*c19Reg    `json:"plugins"`
-	Seen         []c19Seen    `json:"update_fn_calls"`
-	Issued       []*c19Issued `json:"issued"`
-	Requests     []c19Span    `json:"requests"`
-	Overlaps     []string     `json:"overlaps,omitempty"`
-	Handlers     int          `json:"handler_invocations"`
+	LaunchedTrouble string       `json:"launched_trouble,omitempty"`
+	Abandon         *c19AbMarks  `json:"abandon,omitempty"`
+	FailedStarts    []c19FS      `json:"failed_starts,omitempty"`
+	Plugins         []*c19Reg    `json:"plugins"`
+	Seen            []c19Seen    `json:"update_fn_calls"`
+	Issued          []*c19Issued `json:"issued"`
+	Requests        []c19Span    `json:"requests"`
+	Overlaps        []string     `json:"overlaps,omitempty"`
+	Handlers        int          `json:"handler_invocations"`
 }
 
 var c19CaseCtr atomic.Int64
@@ -554,20 +599,21 @@ type c19Exec struct {
 	no  int64
 	ctr atomic.Int64
 
-	mu        sync.Mutex
-	plans     map[string]C19Call
-	seen      []c19Seen
-	issued    []*c19Issued
-	spans     []c19Span
-	overlaps  []string
-	inUpdate  int
-	fstarts   []c19FS
-	abMarks   *c19AbMarks
-	extra     []*fx.Plugin // helper and failed-start plugins, stopped at the end
-	inHandler int
-	handlers  int
-	curUpd    string
-	curHdl    string
+	mu              sync.Mutex
+	plans           map[string]C19Call
+	seen            []c19Seen
+	issued          []*c19Issued
+	spans           []c19Span
+	overlaps        []string
+	inUpdate        int
+	fstarts         []c19FS
+	launchedTrouble string
+	abMarks         *c19AbMarks
+	extra           []*fx.Plugin // helper and failed-start plugins, stopped at the end
+	inHandler       int
+	handlers        int
+	curUpd          string
+	curHdl          string
 }
 
 func (x *c19Exec) updateFn(_ context.Context, u []*api.ContainerUpdate) ([]*api.ContainerUpdate, error) {
@@ -650,6 +696,7 @@ const (
 	kAfterStop   = "afterstop"
 	kFailedStart = "failedstart"
 	kAbandoned   = "abandoned"
+	kLaunched    = "launched"
 )
 
 // c19Live is a connected plugin.
@@ -934,12 +981,54 @@ func runC19Once(c C19Case) (ev.Outcome, int) {
 	if len(earlyIdx) == 0 {
 		return ev.Outcome{Excluded: "no-plugin-registered-up-front"}, 1
 	}
-	rt, err := newLCRuntime(c.PreStop)
+	x := &c19Exec{c: c, no: c19CaseCtr.Add(1), plans: map[string]C19Call{}}
+	// pre-installed plugins: installed into the plugin path before the Adaptation starts
+	type launched struct {
+		name   string
+		issued []*c19Issued
+	}
+	var lps []launched
+	setup := func(dir string) error {
+		if c.Restarts > 0 {
+			return nil
+		}
+		for li, l := range c.Launched {
+			if !validIdx(l.Idx) || li >= 4 {
+				continue
+			}
+			lp := launched{name: fmt.Sprintf("%s-lp%d", l.Idx, li)}
+			var plan lpPlan
+			for ci, call := range l.Calls {
+				if len(call.Updates) == 0 || ci >= 8 {
+					continue
+				}
+				is := &c19Issued{Kind: kLaunched, Where: fmt.Sprintf("l%dc%d", li, ci), Plugin: lp.name, N: len(call.Updates), call: call}
+				is.Tag = fmt.Sprintf("k%d%s", x.no, is.Where)
+				is.sent = c19Build(is.Tag, call.Updates)
+				req, err := proto.Marshal(&api.UpdateContainersRequest{Update: is.sent})
+				if err != nil {
+					return err
+				}
+				d := 0
+				if ci < len(l.DelaysMs) && l.DelaysMs[ci] > 0 && l.DelaysMs[ci] <= 1000 {
+					d = l.DelaysMs[ci]
+				}
+				plan.Calls = append(plan.Calls, lpCall{Tag: is.Tag, DelayMs: d, Req: req})
+				x.plans[is.Tag] = call
+				lp.issued = append(lp.issued, is)
+			}
+			if err := installLaunched(dir, lp.name, plan); err != nil {
+				return err
+			}
+			lps = append(lps, lp)
+		}
+		return nil
+	}
+	rt, err := newLCRuntimeOpts(lcOpts{preStop: c.PreStop, updateFn: x.updateFn, setup: setup})
 	if err != nil {
 		return ev.Outcome{Overloaded: true, Classes: []string{"infra:" + shortErr(err)}}, 1
 	}
-	x := &c19Exec{c: c, rt: rt, no: c19CaseCtr.Add(1), plans: map[string]C19Call{}}
-	rt.setUpdateFn(x.updateFn)
+	x.rt = rt
 
 	// the runtime's own life cycle: the same Adaptation object is stopped and started again,
 	// optionally with a session (one plugin, one update) before each stop
@@ -1139,6 +1228,37 @@ func runC19Once(c C19Case) (ev.Outcome, int) {
 		return ev.Outcome{Overloaded: true, Classes: []string{"watchdog"}}, 1
 	}
 	restore()
+	// collect what the pre-installed plugins were answered
+	for _, lp := range lps {
+		res, err := readLaunched(rt.Dir, lp.name, 20*time.Second)
+		if err != nil || res.StartErr != "" || len(res.Answers) != len(lp.issued) {
+			broken = true
+			x.mu.Lock()
+			x.launchedTrouble = fmt.Sprintf("%s: %v %+v", lp.name, err, res)
+			x.mu.Unlock()
+			continue
+		}
+		for i, is := range lp.issued {
+			a := res.Answers[i]
+			var rpl api.UpdateContainersResponse
+			if err := proto.Unmarshal(a.Failed, &rpl); err == nil {
+				is.failed = rpl.Failed
+			}
+			is.Panic, is.Err, is.ErrMsg, is.NoService = a.Panic, a.Err, a.ErrMsg, a.NoService
+			if len(is.Err) > 300 {
+				is.Err = is.Err[:300]
+			}
+			if a.Err != "" {
+				is.err = errors.New(a.Err)
+			}
+			for _, m := range is.failed {
+				is.FailedIDs = append(is.FailedIDs, m.GetContainerId())
+			}
+			x.mu.Lock()
+			x.issued = append(x.issued, is)
+			x.mu.Unlock()
+		}
+	}
 	// a healthy plugin that lost its connection while the request timeout was short was most
 	// likely dropped for being late on an overloaded machine (its handler may then have run
 	// outside the request): such an execution is not judged
@@ -1199,7 +1319,7 @@ func runC19Once(c C19Case) (ev.Outcome, int) {
 	rt.Stop()
 
 	x.mu.Lock()
-	h := &c19Hist{FailedStarts: x.fstarts, Abandon: x.abMarks, Seen: x.seen, Issued: x.issued, Requests: x.spans, Overlaps: x.overlaps, Handlers: x.handlers}
+	h := &c19Hist{LaunchedTrouble: x.launchedTrouble, FailedStarts: x.fstarts, Abandon: x.abMarks, Seen: x.seen, Issued: x.issued, Requests: x.spans, Overlaps: x.overlaps, Handlers: x.handlers}
 	x.mu.Unlock()
 	for _, l := range live {
 		if l != nil {
@@ -1232,6 +1352,7 @@ var c19KindText = map[string]string{
 	kAfterStop:   "after Stop() returned",
 	kUnstarted:   "on a never-started stub",
 	kFailedStart: "on a stub whose Start() had failed",
+	kLaunched:    "by a pre-installed plugin (launched by the runtime) from its main goroutine",
 	kAbandoned:   "while the runtime was occupied, the plugin being stopped while the call was queued",
 }
 
@@ -1395,6 +1516,8 @@ func judgeC19(c C19Case, h *c19Hist) (ev.Outcome, int) {
 				continue
 			}
 			classes["during-start:delivered"] = true
+		case kLaunched:
+			classes["launched-plugin"] = true
 		case kConfigure:
 			classes["in-configure"] = true
 		case kSync:
@@ -1463,6 +1586,9 @@ func judgeC19(c C19Case, h *c19Hist) (ev.Outcome, int) {
 		if f.Started {
 			classes["failed-start:start-succeeded:"+f.Mode] = true
 		}
+	}
+	if h.LaunchedTrouble != "" {
+		return ev.Outcome{Overloaded: true, History: h, Classes: []string{"infra:launched-plugin-did-not-report"}}, 1
 	}
 	// every registration of this property is well-formed; one that did not complete although
 	// no clause above was violated is not this property's finding
